@@ -62,6 +62,9 @@ Proof. rewrite firstn_length; lia. Qed.
 Lemma filter_length_le {A} (p : A -> bool) l : length (filter p l) <= length l.
 Proof. induction l as [|x l IH]; simpl; auto. destruct (p x); simpl; lia. Qed.
 
+Lemma pair_eq_inv {A B} (a c : A) (b d : B) : (a, b) = (c, d) -> a = c /\ b = d.
+Proof. intros H; inversion H; auto. Qed.
+
 Section MddStruct.
   Context {St : Type}.
   Variable st_eqb : St -> St -> bool.
@@ -1714,6 +1717,1234 @@ Section MddStruct.
     - rewrite Hlen. exact Hm.
     - rewrite Hlen. assumption.
     - split; auto. rewrite L'. exact Hlen.
+  Qed.
+
+  Definition merged_node (merged : St) (depth : nat) : nodeT :=
+    {| n_state := merged; n_vtop := IMIN; n_vbot := IMIN; n_best := None; n_inb := [];
+       n_rub := IMAX; n_theta := None; n_flags := fl_new_relaxed; n_depth := depth |}.
+  Definition set_relaxed_flag (n : nodeT) : nodeT := set_flags n (fl_set_relaxed (n_flags n) true).
+  Definition clear_deleted_flag (n : nodeT) : nodeT := set_flags n (fl_set_deleted (n_flags n) false).
+
+  Lemma relax_layer_unfold m l w1 :
+    ci_width inp = S w1 ->
+    relax_layer st_eqb inp m l =
+    let m0 := note_squash inp m in
+    let sorted := sort_by (rank_order inp m0) l in
+    let keep := firstn w1 sorted in
+    let mrg := skipn w1 sorted in
+    let mstates := map (fun id => state_of m0 id) mrg in
+    let merged := merge rlx mstates in
+    let m1 := add_log m0 (EvMerge mstates merged) in
+    match find (fun id => st_eqb (state_of m1 id) merged) keep with
+    | Some rid =>
+        let m2 := upd_node m1 rid set_relaxed_flag in
+        let m3 := fold_left (drop_step merged rid) mrg m2 in
+        (upd_node m3 (nth w1 sorted 0) clear_deleted_flag, firstn (S w1) sorted)
+    | None =>
+        let mid := length (m_nodes m1) in
+        let n := merged_node merged (n_depth (gnode m1 (hd 0 mrg))) in
+        let m2 := upd_node (with_nodes m1 (m_nodes m1 ++ [n])) mid set_relaxed_flag in
+        (fold_left (drop_step merged mid) mrg m2, keep ++ [mid])
+    end.
+  Proof.
+    intros Hw. unfold relax_layer. rewrite Hw. cbv zeta.
+    match goal with |- context [find ?f ?k] => destruct (find f k) end; reflexivity.
+  Qed.
+
+  Lemma wf_relax_layer m l m' l' :
+    relax_layer st_eqb inp m l = (m', l') ->
+    wf m -> ids_ok (length (m_nodes m)) l -> NoDup l ->
+    wf m' /\ ids_ok (length (m_nodes m')) l' /\ NoDup l'.
+  Proof.
+    intros H W Hl Hnd.
+    destruct (ci_width inp) as [|w1] eqn:Hw.
+    - unfold relax_layer in H. rewrite Hw in H. inversion H; subst.
+      split; [apply wf_set_crash, wf_note_squash, W|].
+      split; auto. simpl. rewrite note_squash_nodes. exact Hl.
+    - rewrite (relax_layer_unfold m l w1 Hw) in H. cbv zeta in H.
+      set (m0 := note_squash inp m) in *.
+      set (sorted := sort_by (rank_order inp m0) l) in *.
+      set (mrg := skipn w1 sorted) in *.
+      set (mstates := map (fun id => state_of m0 id) mrg) in *.
+      set (merged := merge rlx mstates) in *.
+      set (m1 := add_log m0 (EvMerge mstates merged)) in *.
+      assert (W1 : wf m1) by (apply wf_add_log, wf_note_squash, W).
+      assert (N1 : length (m_nodes m1) = length (m_nodes m)).
+      { unfold m1. simpl. unfold m0. rewrite note_squash_nodes. reflexivity. }
+      assert (Ssorted : sub sorted l) by apply sub_sort_by.
+      assert (Hsorted : ids_ok (length (m_nodes m)) sorted) by (eapply ids_ok_incl; [apply Ssorted|exact Hl]).
+      assert (NDsorted : NoDup sorted) by (apply Ssorted; exact Hnd).
+      assert (Hmrg : ids_ok (length (m_nodes m)) mrg) by (eapply ids_ok_incl; [apply sub_skipn|exact Hsorted]).
+      destruct (find _ (firstn w1 sorted)) as [rid|] eqn:Hrec.
+      + apply pair_eq_inv in H; destruct H as [<- <-].
+        apply find_some in Hrec. destruct Hrec as [Hin _].
+        assert (Hrid : rid < length (m_nodes m)).
+        { eapply ids_ok_In; [exact Hsorted|]. apply (proj1 (sub_firstn w1 sorted)). exact Hin. }
+        set (m2 := upd_node m1 rid set_relaxed_flag).
+        assert (W2 : wf m2) by (apply wf_upd_node; [intros n; split; reflexivity|exact W1]).
+        assert (N2 : length (m_nodes m2) = length (m_nodes m)) by (simpl; rewrite upd_nth_length; exact N1).
+        destruct (wf_drop_fold merged rid mrg m2) as [W3 N3]; auto; try (rewrite N2; auto).
+        split; [|split].
+        * apply wf_upd_node; [intros n; split; reflexivity|exact W3].
+        * simpl m_nodes. rewrite upd_nth_length, N3, N2.
+          eapply ids_ok_incl; [apply (proj1 (sub_firstn (S w1) sorted))|exact Hsorted].
+        * apply (proj2 (sub_firstn (S w1) sorted)). exact NDsorted.
+      + apply pair_eq_inv in H; destruct H as [<- <-].
+        set (mid := length (m_nodes m1)).
+        set (n := merged_node merged (n_depth (gnode m1 (hd 0 mrg)))).
+        set (m2 := upd_node (with_nodes m1 (m_nodes m1 ++ [n])) mid set_relaxed_flag).
+        assert (W2 : wf m2).
+        { apply wf_upd_node; [intros x; split; reflexivity|]. apply wf_add_node; auto. }
+        assert (N2 : length (m_nodes m2) = S (length (m_nodes m))).
+        { change (m_nodes m2) with (upd_nth mid set_relaxed_flag (m_nodes m1 ++ [n])).
+          rewrite upd_nth_length, app_length, N1. simpl. lia. }
+        destruct (wf_drop_fold merged mid mrg m2) as [W3 N3]; auto.
+        { rewrite N2. unfold mid. rewrite N1. lia. }
+        { rewrite N2. eapply ids_ok_mono; [|exact Hmrg]. lia. }
+        split; [exact W3|split].
+        * rewrite N3, N2. apply ids_ok_app.
+          -- eapply ids_ok_mono; [|eapply ids_ok_incl; [apply sub_firstn|exact Hsorted]]. lia.
+          -- constructor; [unfold mid; rewrite N1; lia|constructor].
+        * apply NoDup_app_fresh; [apply (proj2 (sub_firstn w1 sorted)); exact NDsorted|].
+          intros Hin. apply (proj1 (sub_firstn w1 sorted)) in Hin.
+          pose proof (ids_ok_In _ _ _ Hsorted Hin) as Hlt. unfold mid in Hlt. rewrite N1 in Hlt. lia.
+  Qed.
+
+  Lemma wf_squash_if_needed m l m' l' :
+    squash_if_needed st_eqb inp m l = (m', l') ->
+    wf m -> ids_ok (length (m_nodes m)) l -> NoDup l ->
+    wf m' /\ ids_ok (length (m_nodes m')) l' /\ NoDup l'.
+  Proof.
+    unfold squash_if_needed. intros H W Hl Hnd.
+    assert (Hid : (m', l') = (m, l) -> wf m' /\ ids_ok (length (m_nodes m')) l' /\ NoDup l')
+      by (intros E; inversion E; subst; auto).
+    destruct (ci_type inp).
+    - auto.
+    - destruct (_ && _); [|auto]. eapply wf_relax_layer; eauto.
+    - destruct (_ <? _); [|auto].
+      pose proof (ext_restrict_layer _ _ _ _ H) as E.
+      apply wf_restrict_layer in H; auto. destruct H as [W' [S1 S2]].
+      split; [auto|split; [|auto]].
+      eapply ids_ok_mono; [apply (ext_nodes _ _ E)|]. eapply ids_ok_incl; eauto.
+  Qed.
+
+  (* the three stages together *)
+  Lemma wf_stages m curr m1 l1 m2 l2 m3 l3 :
+    prefilter m curr = (m1, l1) -> filter_with_dominance inp m1 l1 = (m2, l2) ->
+    squash_if_needed st_eqb inp m2 l2 = (m3, l3) ->
+    wf m -> ids_ok (length (m_nodes m)) curr -> NoDup curr ->
+    wf m3 /\ ids_ok (length (m_nodes m3)) l3 /\ NoDup l3 /\
+    wf m2 /\ length (m_nodes m) <= length (m_nodes m2) /\ m_next m2 = m_next m.
+  Proof.
+    intros H1 H2 H3 W Hc Hnd.
+    pose proof (ext_prefilter _ _ _ _ H1) as E1.
+    pose proof (ext_filter_with_dominance _ _ _ _ H2) as E2.
+    destruct (wf_prefilter _ _ _ _ H1 W) as [W1 S1].
+    destruct (wf_filter_with_dominance _ _ _ _ H2 W1) as [W2 S2].
+    assert (S12 : sub l2 curr) by (eapply sub_trans; eauto).
+    assert (Hn : length (m_nodes m) <= length (m_nodes m2)).
+    { pose proof (ext_nodes _ _ E1). pose proof (ext_nodes _ _ E2). lia. }
+    destruct (wf_squash_if_needed _ _ _ _ H3 W2) as [W3 [I3 N3]].
+    - eapply ids_ok_mono; [exact Hn|]. eapply ids_ok_incl; [apply S12|exact Hc].
+    - apply S12; exact Hnd.
+    - split; [exact W3|]. split; [exact I3|]. split; [exact N3|]. split; [exact W2|]. split; [exact Hn|].
+      (* m_next is not touched by the filters *)
+      clear - H1 H2.
+      assert (F1 : forall l m m' l', filter_with_cache st_eqb inp m l = (m', l') -> m_next m' = m_next m).
+      { induction l as [|id l IH]; simpl; intros a a' k H.
+        - inversion H; reflexivity.
+        - destruct (cache_get _ _ _ _ _) as [a1 th] eqn:Hc.
+          assert (Ha1 : m_next a1 = m_next a).
+          { unfold cache_get in Hc. destruct (ci_use_cache inp); [destruct (get_threshold _ _ _ _)|];
+              inversion Hc; reflexivity. }
+          destruct th as [t|]; [destruct (_ >? _)%Z|].
+          + destruct (filter_with_cache _ _ a1 l) as [a2 r] eqn:Hf. inversion H; subst.
+            rewrite (IH _ _ _ Hf). exact Ha1.
+          + rewrite (IH _ _ _ H). exact Ha1.
+          + destruct (filter_with_cache _ _ a1 l) as [a2 r] eqn:Hf. inversion H; subst.
+            rewrite (IH _ _ _ Hf). exact Ha1. }
+      assert (F2 : forall l m m' l', dom_retain inp m l = (m', l') -> m_next m' = m_next m).
+      { induction l as [|id l IH]; simpl; intros a a' k H.
+        - inversion H; reflexivity.
+        - destruct (fl_is_exact _).
+          + destruct (dom_query _ _ _ _ _) as [a1 r] eqn:Hq.
+            assert (Ha1 : m_next a1 = m_next a).
+            { unfold dom_query in Hq. destruct (ci_domrule inp) as [[[[key nd] coord] usev]|];
+                [destruct (is_dominated_or_insert _ _ _ _ _ _ _ _ _) as [[st' r']|]|];
+                inversion Hq; reflexivity. }
+            destruct (dc_dominated r).
+            * rewrite (IH _ _ _ H). exact Ha1.
+            * destruct (dom_retain _ a1 l) as [a2 k2] eqn:Hf. inversion H; subst.
+              rewrite (IH _ _ _ Hf). exact Ha1.
+          + destruct (dom_retain _ a l) as [a2 k2] eqn:Hf. inversion H; subst. eauto. }
+      unfold filter_with_dominance in H2. rewrite (F2 _ _ _ _ H2).
+      unfold prefilter in H1. destruct (_ <? _); [apply (F1 _ _ _ _ H1)|inversion H1; reflexivity].
+  Qed.
+
+  (* ---- _move_to_next_layer and the loop *)
+  Lemma seq_ids_ok n a : ids_ok n (seq a (n - a)).
+  Proof. unfold ids_ok. apply Forall_forall. intros x Hx. apply in_seq in Hx. lia. Qed.
+
+  Lemma wf_move_clean m m' ol :
+    move_to_next_layer_clean st_eqb inp m = (m', ol) -> wf m ->
+    wf m' /\ (forall l, ol = Some l -> ids_ok (length (m_nodes m')) l /\ NoDup l).
+  Proof.
+    rewrite move_clean_unfold. intros H W.
+    assert (W0 : wf (with_next m [])) by (apply wf_with_next; [exact W|constructor|constructor]).
+    destruct (m_next m) as [|x nx] eqn:Hn.
+    - inversion H; subst. split; [|intros l Hl; discriminate].
+      apply wf_push_layer; [exact W0|constructor].
+    - rewrite <- Hn in H.
+      destruct (prefilter _ _) as [m1 l1] eqn:H1.
+      destruct (filter_with_dominance _ _ _) as [m2 l2] eqn:H2.
+      destruct (squash_if_needed _ _ _ _) as [m3 l3] eqn:H3.
+      inversion H; subst.
+      destruct (wf_stages _ _ _ _ _ _ _ _ H1 H2 H3 W0) as [W3 [I3 [N3 _]]].
+      + simpl. apply (wf_next _ W).
+      + apply (wf_next_nodup _ W).
+      + split.
+        * apply wf_push_layer; [exact W3|apply seq_ids_ok].
+        * intros l Hl. inversion Hl; subst. simpl. split; auto.
+  Qed.
+
+  Lemma pooled_start_wf m var :
+    wf m -> wf (pooled_start m var) /\ length (m_nodes (pooled_start m var)) = length (m_nodes m).
+  Proof.
+    intros W. unfold pooled_start.
+    set (m1 := fold_left _ (pooled_curr m var) m).
+    assert (P1 : wf m1 /\ length (m_nodes m1) = length (m_nodes m) /\ m_next m1 = m_next m).
+    { unfold m1. apply (fold_left_inv (fun a => wf a /\ length (m_nodes a) = length (m_nodes m) /\ m_next a = m_next m)).
+      - intros a x _ [Wa [La Na]]. split; [|split].
+        + apply wf_upd_node; [intros n; split; reflexivity|exact Wa].
+        + simpl. rewrite upd_nth_length. exact La.
+        + exact Na.
+      - auto. }
+    destruct P1 as [W1 [L1 N1]]. split; [|exact L1].
+    apply wf_with_next; [exact W1| |].
+    - eapply ids_ok_incl; [apply sub_filter|]. rewrite N1, L1. apply (wf_next _ W).
+    - apply NoDup_filter. rewrite N1. apply (wf_next_nodup _ W).
+  Qed.
+
+  Lemma wf_move_pooled m var m' ol :
+    move_to_next_layer_pooled st_eqb inp m var = (m', ol) -> wf m ->
+    wf m' /\ (forall l, ol = Some l -> ids_ok (length (m_nodes m')) l /\ NoDup l).
+  Proof.
+    rewrite move_pooled_unfold. cbv zeta. intros H W.
+    destruct (pooled_start_wf m var W) as [W0 L0].
+    destruct (prefilter _ _) as [m1 l1] eqn:H1.
+    destruct (filter_with_dominance _ _ _) as [m2 l2] eqn:H2.
+    destruct (squash_if_needed _ _ _ _) as [m3 l3] eqn:H3.
+    apply pair_eq_inv in H. destruct H as [<- <-].
+    assert (Hcurr : ids_ok (length (m_nodes m)) (pooled_curr m var) /\ NoDup (pooled_curr m var)).
+    { unfold pooled_curr. split; [eapply ids_ok_incl; [apply sub_filter|apply (wf_next _ W)]|].
+      apply NoDup_filter. apply (wf_next_nodup _ W). }
+    destruct Hcurr as [Ic Nc].
+    destruct (wf_stages _ _ _ _ _ _ _ _ H1 H2 H3 W0) as [W3 [I3 [N3 [_ [Hn _]]]]].
+    { rewrite L0. exact Ic. }
+    { exact Nc. }
+    pose proof (ext_nodes _ _ (ext_squash_if_needed _ _ _ _ H3)) as Hn3.
+    rewrite L0 in Hn.
+    assert (G : wf m3 /\ (forall l, Some l3 = Some l -> ids_ok (length (m_nodes m3)) l /\ NoDup l)).
+    { split; [exact W3|]. intros l Hl. inversion Hl; subst. auto. }
+    destruct (length (m_nodes m2) <? length (m_nodes m3)) eqn:Hlt.
+    - apply Nat.ltb_lt in Hlt.
+      destruct (pooled_curr m var ++ [length (m_nodes m2)]) as [|c cs] eqn:Hc; [exact G|].
+      rewrite <- Hc. split; [|apply G].
+      apply wf_push_layer; [exact W3|]. apply ids_ok_app.
+      + eapply ids_ok_mono; [|exact Ic]. lia.
+      + constructor; [exact Hlt|constructor].
+    - destruct (pooled_curr m var) as [|c cs] eqn:Hc; [exact G|].
+      split; [|apply G].
+      apply wf_push_layer; [exact W3|]. eapply ids_ok_mono; [|exact Ic]. lia.
+  Qed.
+
+  Lemma wf_loop_move m var m' ol :
+    loop_move m var = (m', ol) -> wf m ->
+    wf m' /\ (forall l, ol = Some l -> ids_ok (length (m_nodes m')) l /\ NoDup l).
+  Proof.
+    unfold loop_move. destruct (is_pooled flv).
+    - destruct (m_next m).
+      + intros H W; inversion H; subst. split; [auto|intros l Hl; discriminate].
+      + apply wf_move_pooled.
+    - apply wf_move_clean.
+  Qed.
+
+  Theorem wf_layer_loop : forall fuel m m' e,
+    layer_loop st_eqb inp fuel m = (m', e) -> wf m -> wf m'.
+  Proof.
+    induction fuel as [|fuel IH]; intros m m' e H W.
+    - simpl in H. inversion H; subst. exact W.
+    - rewrite layer_loop_iteration in H. cbv zeta in H.
+      set (sts := map (fun id => state_of m id) (m_next m)) in *.
+      destruct (next_variable pb (m_curr_depth m) sts) as [var|].
+      2:{ inversion H; subst. apply wf_add_log; exact W. }
+      set (m0 := add_log m (EvNextVar (m_curr_depth m) sts (Some var))) in *.
+      set (m1 := with_polls m0 (S (m_polls m0))) in *.
+      assert (W1 : wf m1) by (apply wf_with_polls, wf_add_log, W).
+      destruct (_ && _).
+      { inversion H; subst. exact W1. }
+      destruct (loop_move m1 var) as [m2 ol] eqn:Hmv.
+      destruct (wf_loop_move _ _ _ _ Hmv W1) as [W2 Hl].
+      destruct ol as [l|].
+      2:{ inversion H; subst. exact W2. }
+      eapply IH; [exact H|]. apply wf_with_depth. apply wf_fold_expand; [exact W2|].
+      apply (Hl l eq_refl).
+  Qed.
+
+  (* ---- _finalize *)
+  Ltac links := let n := fresh "n" in intros n; split; reflexivity.
+
+  Lemma wf_finalize_layers m : wf m -> wf (finalize_layers inp m).
+  Proof.
+    intros W. unfold finalize_layers. destruct (is_pooled flv).
+    - set (m1 := fold_left _ (m_next m) m).
+      assert (W1 : wf m1).
+      { unfold m1. apply fold_left_inv; [|exact W]. intros a x _ Wa. apply wf_upd_node; [links|exact Wa]. }
+      apply wf_push_layer; [exact W1|apply (wf_next _ W1)].
+    - destruct (m_next m); [exact W|]. apply wf_push_layer; [exact W|apply seq_ids_ok].
+  Qed.
+
+  Lemma pick_In tb (c : list nat) x : pick tb c = Some x -> In x c.
+  Proof. unfold pick. destruct c; [discriminate|]. apply nth_error_In. Qed.
+
+  Lemma argmax_candidates_incl m ids : incl (argmax_candidates inp m ids) ids.
+  Proof.
+    unfold argmax_candidates. destruct (zmax_list _); [apply incl_filter|intros x []].
+  Qed.
+
+  Lemma pick_argmax_ok tb m ids n :
+    ids_ok n ids -> oid_ok n (pick tb (argmax_candidates inp m ids)).
+  Proof.
+    intros H. destruct (pick _ _) as [x|] eqn:Hp; simpl; auto.
+    apply pick_In in Hp. apply argmax_candidates_incl in Hp. eapply ids_ok_In; eauto.
+  Qed.
+
+  Lemma wf_find_best_node tb tb2 m : wf m -> wf (find_best_node inp tb tb2 m).
+  Proof.
+    intros W. unfold find_best_node. apply wf_with_best; auto.
+    - apply pick_argmax_ok. apply (wf_next _ W).
+    - apply pick_argmax_ok. eapply ids_ok_incl; [apply incl_filter|apply (wf_next _ W)].
+  Qed.
+
+  Lemma wf_finalize_exact m : wf m -> wf (finalize_exact inp m).
+  Proof.
+    intros [W1 W2 W3 W4 W5 W6 W7 W8 W9]. unfold finalize_exact.
+    constructor; simpl; auto.
+    destruct (_ && _); auto.
+  Qed.
+
+  Lemma inb_range_any m id : wf m -> ids_ok (length (m_edges m)) (n_inb (gnode m id)).
+  Proof.
+    intros W. destruct (Nat.lt_ge_cases id (length (m_nodes m))) as [H|H].
+    - apply wf_inb_range; auto.
+    - unfold get_node. rewrite nth_overflow by exact H. constructor.
+  Qed.
+
+  Lemma wf_lel_cutset m lel : wf m -> wf (lel_cutset m lel).
+  Proof.
+    intros W. unfold lel_cutset. apply fold_left_inv.
+    - intros a x _ Wa. apply wf_upd_node; [links|exact Wa].
+    - destruct (nth_error (m_layers m) lel) as [ids|] eqn:Hn; [|exact W].
+      set (m1 := fold_left _ ids m).
+      assert (P1 : wf m1 /\ length (m_nodes m1) = length (m_nodes m)).
+      { unfold m1. apply (fold_left_inv (fun a => wf a /\ length (m_nodes a) = length (m_nodes m))); [|auto].
+        intros a x _ [Wa La]. split; [apply wf_upd_node; [links|exact Wa]|].
+        simpl. rewrite upd_nth_length. exact La. }
+      destruct P1 as [W1 L1]. apply wf_with_cutset; [exact W1|].
+      apply ids_ok_app; [apply (wf_cutset _ W1)|]. rewrite L1.
+      pose proof (wf_layers _ W) as F. rewrite Forall_forall in F. apply F.
+      eapply nth_error_In; eauto.
+  Qed.
+
+  Lemma wf_frontier_cutset m push : wf m -> wf (frontier_cutset inp m push).
+  Proof.
+    unfold frontier_cutset. apply fold_left_inv. intros a id _ Wa.
+    destruct (fl_is_exact _); [apply wf_upd_node; [links|exact Wa]|].
+    pose proof (inb_range_any a id Wa) as HL.
+    apply (fold_left_inv (fun b => wf b /\ length (m_edges b) = length (m_edges a))); [|auto].
+    intros b eid Hin [Wb Eb].
+    destruct (_ && _); [|auto].
+    assert (Hfrom : e_from (get_edge b eid) < length (m_nodes b)).
+    { apply wf_edge_from; auto. rewrite Eb. eapply ids_ok_In; eauto. }
+    destruct push.
+    - split; [|exact Eb]. apply wf_upd_node; [links|].
+      apply wf_with_cutset; [exact Wb|]. apply ids_ok_app; [apply (wf_cutset _ Wb)|].
+      constructor; [exact Hfrom|constructor].
+    - split; [|exact Eb]. apply wf_upd_node; [links|exact Wb].
+  Qed.
+
+  Lemma wf_finalize_cutset m : wf m -> wf (finalize_cutset inp m).
+  Proof.
+    intros W. unfold finalize_cutset.
+    destruct flv.
+    - destruct (_ || _).
+      + apply wf_lel_cutset. destruct (m_lel m); [exact W|apply wf_with_lel_exact; exact W].
+      + destruct (m_lel m); [exact W|apply wf_with_lel_exact; exact W].
+    - destruct (_ || _).
+      + apply wf_frontier_cutset. destruct (m_lel m); [exact W|apply wf_with_lel_exact; exact W].
+      + destruct (m_lel m); [exact W|apply wf_with_lel_exact; exact W].
+    - destruct (_ || _); [apply wf_frontier_cutset|]; exact W.
+  Qed.
+
+  Lemma wf_compute_local_bounds m : wf m -> wf (compute_local_bounds inp m).
+  Proof.
+    intros W. unfold compute_local_bounds. destruct (_ && _); [|exact W].
+    apply fold_left_inv.
+    - intros a id _ Wa. destruct (f_marked _); [|exact Wa].
+      apply fold_left_inv; [|exact Wa]. intros b eid _ Wb. apply wf_upd_node; [links|exact Wb].
+    - apply fold_left_inv; [|exact W]. intros a id _ Wa. apply wf_upd_node; [links|exact Wa].
+  Qed.
+
+  Lemma wf_maybe_update_cache m id : wf m -> wf (maybe_update_cache st_eqb inp m id).
+  Proof.
+    intros W. unfold maybe_update_cache. destruct (n_theta _); [|exact W].
+    destruct (f_above _); [apply wf_cache_update; exact W|exact W].
+  Qed.
+
+  Lemma wf_compute_thresholds m : wf m -> wf (compute_thresholds st_eqb inp m).
+  Proof.
+    intros W. unfold compute_thresholds. destruct (_ || _); [|exact W].
+    assert (Hstep : forall (bk : Z) a id, wf a ->
+      wf (let n := gnode a id in
+          if f_deleted (n_flags n) then a
+          else
+            let m0 :=
+              if negb (f_cache (n_flags n)) then
+                let tot_rub := sat_add (n_vtop n) (n_rub n) in
+                let m0 :=
+                  if (tot_rub <=? bk)%Z then upd_node a id (fun n0 => set_theta n0 (Some (sat_sub bk (n_rub n0))))
+                  else if f_cutset (n_flags n) then
+                    let tot_locb := sat_add (n_vtop n) (n_vbot n) in
+                    if (tot_locb <=? bk)%Z then
+                      upd_node a id (fun n0 => set_theta n0 (Some (Z.min (opt_default IMAX (n_theta n0)) (sat_sub bk (n_vbot n0)))))
+                    else upd_node a id (fun n0 => set_theta n0 (Some (n_vtop n0)))
+                  else if fl_is_exact (n_flags n) && match n_theta n with None => true | Some _ => false end then
+                    upd_node a id (fun n0 => set_theta n0 (Some IMAX))
+                  else a in
+                maybe_update_cache st_eqb inp m0 id
+              else a in
+            match n_theta (gnode m0 id) with
+            | Some my_theta =>
+                fold_left (fun m1 eid =>
+                    let e := get_edge m1 eid in
+                    upd_node m1 (e_from e) (fun p =>
+                      set_theta p (Some (Z.min (opt_default IMAX (n_theta p)) (sat_sub my_theta (e_cost e))))))
+                  (n_inb (gnode m0 id)) m0
+            | None => m0
+            end)).
+    { intros bk a id Wa. cbv zeta. destruct (f_deleted _); [exact Wa|].
+      match goal with |- wf (match n_theta (get_node inp ?mm id) with _ => _ end) =>
+        set (m2 := mm); assert (W2 : wf m2) end.
+      { subst m2. destruct (negb _); [|exact Wa]. apply wf_maybe_update_cache.
+        repeat match goal with |- context [if ?c then _ else _] => destruct c end;
+          try exact Wa; (apply wf_upd_node; [links|exact Wa]). }
+      destruct (n_theta (gnode m2 id)); [|exact W2].
+      apply fold_left_inv; [|exact W2]. intros b eid _ Wb. apply wf_upd_node; [links|exact Wb]. }
+    destruct (m_best_exact m) as [be|].
+    - apply fold_left_inv.
+      + intros a id _ Wa. apply Hstep. exact Wa.
+      + apply fold_left_inv; [|exact W]. intros a id _ Wa.
+        match goal with |- context [if ?c then _ else _] => destruct c end; [|exact Wa].
+        apply wf_upd_node; [links|exact Wa].
+    - apply fold_left_inv; [|exact W]. intros a id _ Wa. apply Hstep. exact Wa.
+  Qed.
+
+  Theorem wf_finalize tb tb2 m : wf m -> wf (finalize st_eqb inp tb tb2 m).
+  Proof.
+    intros W. unfold finalize.
+    apply wf_compute_thresholds, wf_compute_local_bounds, wf_finalize_cutset, wf_finalize_exact,
+      wf_find_best_node, wf_finalize_layers, W.
+  Qed.
+
+  (* whatever the outcome (compiled, cut off, out of fuel), the diagram is well formed *)
+  Theorem wf_compile tb tb2 c ds polls m o :
+    compile st_eqb inp tb tb2 c ds polls = (m, o) -> wf m.
+  Proof.
+    unfold compile. destruct (layer_loop _ _ _ _) as [m1 e] eqn:Hl.
+    apply wf_layer_loop in Hl; [|apply wf_initialize].
+    destruct e; intros H; inversion H; subst; auto. apply wf_finalize; exact Hl.
+  Qed.
+
+  (* ================================================================ (3c) relax: the strong form *)
+  (* the relax call made for inbound edge [eid] of the merged-away node [did], read in diagram [m] *)
+  Definition relax_event (m : mddT) (merged : St) (did eid : nat) : event St :=
+    let e := get_edge m eid in
+    let src := state_of m (e_from e) in
+    let dst := state_of m did in
+    EvRelax src dst merged (e_dec e) (e_cost e) (relax rlx src dst merged (e_dec e) (e_cost e)).
+
+  Definition inb_frame (mid : nat) (a b : mddT) : Prop :=
+    forall id, id <> mid -> n_inb (gnode b id) = n_inb (gnode a id).
+
+  Lemma inb_frame_refl mid a : inb_frame mid a a.
+  Proof. intros id _; reflexivity. Qed.
+  Lemma inb_frame_trans mid a b c : inb_frame mid a b -> inb_frame mid b c -> inb_frame mid a c.
+  Proof. intros H1 H2 id Hid. rewrite H2, H1; auto. Qed.
+  Lemma inb_frame_upd_node mid a k f : keeps_links f -> inb_frame mid a (upd_node a k f).
+  Proof. intros Hf id _. apply (get_node_upd_node_proj (@n_inb St)). intros n; apply Hf. Qed.
+  Lemma inb_frame_append_edge mid a e : e_to e = mid -> inb_frame mid a (append_edge inp a e).
+  Proof.
+    intros He id Hid. unfold get_node. simpl m_nodes. rewrite nth_upd_nth_other; auto. congruence.
+  Qed.
+
+  Lemma get_edge_ext m a eid : ext m a -> eid < length (m_edges m) -> get_edge a eid = get_edge m eid.
+  Proof.
+    intros E H. destruct (ext_edges _ _ E) as [k Hk]. unfold get_edge. rewrite Hk.
+    apply app_nth1. exact H.
+  Qed.
+
+  Lemma redirect_fold_log m merged mid L : forall a,
+    wf m -> ext m a -> ids_ok (length (m_edges m)) L ->
+    let a' := fold_left (redirect_step merged mid) L a in
+    ext m a' /\ inb_frame mid a a' /\
+    m_log a' = rev (map (fun eid => relax_event m merged (e_to (get_edge m eid)) eid) L) ++ m_log a.
+  Proof.
+    induction L as [|eid L IH]; intros a W E HL; simpl.
+    - split; [exact E|]. split; [apply inb_frame_refl|reflexivity].
+    - inversion HL; subst.
+      assert (E1 : ext a (redirect_step merged mid a eid)).
+      { unfold redirect_step. eapply ext_trans; [apply ext_add_log|apply ext_append_edge]. }
+      destruct (IH (redirect_step merged mid a eid) W (ext_trans _ _ _ E E1) H2) as [E2 [F2 L2]].
+      split; [exact E2|]. split.
+      + eapply inb_frame_trans; [|exact F2]. unfold redirect_step.
+        eapply inb_frame_trans; [|apply inb_frame_append_edge; reflexivity].
+        intros id _; reflexivity.
+      + rewrite L2. rewrite <- app_assoc. f_equal.
+        unfold redirect_step. simpl. f_equal.
+        unfold relax_event. rewrite (get_edge_ext m a eid E H1).
+        pose proof (wf_edges _ W) as FE. rewrite Forall_forall in FE.
+        destruct (FE (get_edge m eid)) as [Hfrom Hto]; [apply nth_In; exact H1|].
+        rewrite !(ext_state _ _ E) by assumption. reflexivity.
+  Qed.
+
+  Lemma drop_fold_log m merged mid L : forall a,
+    wf m -> ext m a -> inb_frame mid m a ->
+    Forall (fun did => did <> mid /\ did < length (m_nodes m)) L ->
+    let a' := fold_left (drop_step merged mid) L a in
+    ext m a' /\
+    m_log a' = rev (flat_map (fun did => map (relax_event m merged did) (n_inb (gnode m did))) L) ++ m_log a.
+  Proof.
+    induction L as [|did L IH]; intros a W E F HL; simpl.
+    - split; [exact E|reflexivity].
+    - inversion HL as [|? ? [Hne Hlt] HL']; subst.
+      set (a1 := upd_node a did (fun n => set_flags n (fl_set_deleted (n_flags n) true))).
+      assert (E1 : ext m a1) by (apply ext_r_upd_node; [exact E|reflexivity]).
+      assert (F1 : inb_frame mid m a1).
+      { eapply inb_frame_trans; [exact F|]. apply inb_frame_upd_node. intros n; split; reflexivity. }
+      assert (Hinb : n_inb (gnode a1 did) = n_inb (gnode m did)) by (apply F1; exact Hne).
+      assert (Hds : drop_step merged mid a did = fold_left (redirect_step merged mid) (n_inb (gnode m did)) a1).
+      { unfold drop_step. fold a1. rewrite redirect_edges_fold, Hinb. reflexivity. }
+      destruct (redirect_fold_log m merged mid (n_inb (gnode m did)) a1 W E1 (wf_inb_range m did W Hlt))
+        as [E2 [F2 L2]].
+      rewrite Hds.
+      destruct (IH _ W E2 (inb_frame_trans _ _ _ _ F1 F2) HL') as [E3 L3].
+      split; [exact E3|].
+      rewrite L3, L2. rewrite rev_app_distr, <- app_assoc. f_equal. f_equal.
+      f_equal. apply map_ext_in. intros eid Hin.
+      rewrite (wf_inb_to _ W did eid Hlt Hin). reflexivity.
+  Qed.
+
+  Theorem relax_layer_log m l m' l' :
+    1 <= ci_width inp -> wf m -> ids_ok (length (m_nodes m)) l -> NoDup l ->
+    relax_layer st_eqb inp m l = (m', l') ->
+    let mrg := merged_ids m l in
+    let mstates := merged_states m l in
+    let merged := merge rlx mstates in
+    m_log m' =
+      rev (flat_map (fun did => map (relax_event m merged did) (n_inb (gnode m did))) mrg)
+      ++ EvMerge mstates merged :: m_log m.
+  Proof.
+    intros Hw W Hl Hnd H.
+    destruct (ci_width inp) as [|w1] eqn:Hw1; [lia|].
+    unfold merged_states, merged_ids. rewrite Hw1. simpl Nat.sub. rewrite Nat.sub_0_r.
+    rewrite (relax_layer_unfold m l w1 Hw1) in H. cbv zeta in H. cbv zeta.
+    set (m0 := note_squash inp m) in *.
+    set (sorted := sort_by (rank_order inp m0) l) in *.
+    set (mrg := skipn w1 sorted) in *.
+    assert (Hms : map (fun id => state_of m0 id) mrg = map (fun id => state_of m id) mrg).
+    { apply map_ext. intros id. unfold m0. rewrite note_squash_gnode. reflexivity. }
+    rewrite Hms in H.
+    set (mstates := map (fun id => state_of m id) mrg) in *.
+    set (merged := merge rlx mstates) in *.
+    set (m1 := add_log m0 (EvMerge mstates merged)) in *.
+    assert (E1 : ext m m1) by (eapply ext_trans; [apply ext_note_squash|apply ext_add_log]).
+    assert (G1 : forall id, gnode m1 id = gnode m id) by (intros id; apply note_squash_gnode).
+    assert (L1 : m_log m1 = EvMerge mstates merged :: m_log m).
+    { unfold m1. simpl. unfold m0. rewrite note_squash_log. reflexivity. }
+    assert (N1 : length (m_nodes m1) = length (m_nodes m)).
+    { unfold m1. simpl. unfold m0. rewrite note_squash_nodes. reflexivity. }
+    assert (Ssorted : sub sorted l) by apply sub_sort_by.
+    assert (Hsorted : ids_ok (length (m_nodes m)) sorted) by (eapply ids_ok_incl; [apply Ssorted|exact Hl]).
+    assert (NDsorted : NoDup sorted) by (apply Ssorted; exact Hnd).
+    assert (Hmrg : ids_ok (length (m_nodes m)) mrg) by (eapply ids_ok_incl; [apply sub_skipn|exact Hsorted]).
+    assert (Hdisj : forall x, In x (firstn w1 sorted) -> ~ In x mrg).
+    { rewrite <- (firstn_skipn w1 sorted) in NDsorted. apply NoDup_app_inv in NDsorted. apply NDsorted. }
+    destruct (find _ (firstn w1 sorted)) as [rid|] eqn:Hrec.
+    - apply pair_eq_inv in H. destruct H as [<- _].
+      apply find_some in Hrec. destruct Hrec as [Hin _].
+      set (m2 := upd_node m1 rid set_relaxed_flag).
+      assert (E2 : ext m m2) by (apply ext_r_upd_node; [exact E1|reflexivity]).
+      assert (F2 : inb_frame rid m m2).
+      { intros id _. unfold m2. rewrite (get_node_upd_node_proj (@n_inb St)) by reflexivity.
+        rewrite G1. reflexivity. }
+      destruct (drop_fold_log m merged rid mrg m2 W E2 F2) as [_ L3].
+      { apply Forall_forall. intros did Hd. split.
+        - intros ->. apply (Hdisj _ Hin). exact Hd.
+        - eapply ids_ok_In; eauto. }
+      change (m_log (upd_node (fold_left (drop_step merged rid) mrg m2) (nth w1 sorted 0) clear_deleted_flag))
+        with (m_log (fold_left (drop_step merged rid) mrg m2)).
+      rewrite L3. change (m_log m2) with (m_log m1). rewrite L1. reflexivity.
+    - apply pair_eq_inv in H. destruct H as [<- _].
+      set (mid := length (m_nodes m1)).
+      set (n := merged_node merged (n_depth (gnode m1 (hd 0 mrg)))).
+      set (m2 := upd_node (with_nodes m1 (m_nodes m1 ++ [n])) mid set_relaxed_flag).
+      assert (E2 : ext m m2).
+      { apply ext_r_upd_node; [|reflexivity]. eapply ext_trans; [exact E1|apply (ext_with_nodes_app m1)]. }
+      assert (F2 : inb_frame mid m m2).
+      { intros id Hid. unfold m2. rewrite (get_node_upd_node_proj (@n_inb St)) by reflexivity.
+        rewrite <- G1. unfold get_node.
+        change (m_nodes (with_nodes m1 (m_nodes m1 ++ [n]))) with (m_nodes m1 ++ [n]).
+        destruct (Nat.lt_ge_cases id (length (m_nodes m1))) as [Hlt|Hge].
+        - rewrite app_nth1 by exact Hlt. reflexivity.
+        - rewrite app_nth2 by exact Hge.
+          rewrite (nth_overflow (m_nodes m1)) by exact Hge.
+          assert (Hk : exists k, id - length (m_nodes m1) = S k).
+          { exists (id - length (m_nodes m1) - 1). unfold mid in Hid. lia. }
+          destruct Hk as [k ->]. simpl. destruct k; reflexivity. }
+      destruct (drop_fold_log m merged mid mrg m2 W E2 F2) as [_ L3].
+      { apply Forall_forall. intros did Hd. pose proof (ids_ok_In _ _ _ Hmrg Hd) as Hlt.
+        split; [unfold mid; rewrite N1; lia|exact Hlt]. }
+      rewrite L3. change (m_log m2) with (m_log m1). rewrite L1. reflexivity.
+  Qed.
+
+  (* C12's reading of the previous theorem *)
+  Corollary relax_layer_protocol m l m' l' :
+    1 <= ci_width inp -> wf m -> ids_ok (length (m_nodes m)) l -> NoDup l ->
+    relax_layer st_eqb inp m l = (m', l') ->
+    let mstates := merged_states m l in
+    let merged := merge rlx mstates in
+    exists evs, m_log m' = evs ++ EvMerge mstates merged :: m_log m /\
+      forall ev, In ev evs ->
+        exists did eid,
+          In did (merged_ids m l) /\ In eid (n_inb (gnode m did)) /\
+          eid < length (m_edges m) /\
+          let e := get_edge m eid in
+          e_to e = did /\ e_from e < length (m_nodes m) /\
+          In (state_of m did) mstates /\
+          ev = EvRelax (state_of m (e_from e)) (state_of m (e_to e)) merged (e_dec e) (e_cost e)
+                 (relax rlx (state_of m (e_from e)) (state_of m (e_to e)) merged (e_dec e) (e_cost e)).
+  Proof.
+    intros Hw W Hl Hnd H mstates merged.
+    pose proof (relax_layer_log m l m' l' Hw W Hl Hnd H) as L. cbv zeta in L.
+    eexists. split; [exact L|].
+    intros ev Hev. apply in_rev in Hev. apply in_flat_map in Hev. destruct Hev as [did [Hd Hev]].
+    apply in_map_iff in Hev. destruct Hev as [eid [<- He]].
+    assert (Hlt : did < length (m_nodes m)).
+    { eapply ids_ok_In; [|exact Hd]. unfold merged_ids.
+      eapply ids_ok_incl; [apply sub_skipn|]. eapply ids_ok_incl; [apply sub_sort_by|exact Hl]. }
+    exists did, eid. split; [exact Hd|]. split; [exact He|].
+    assert (Heid : eid < length (m_edges m)) by (eapply ids_ok_In; [apply (wf_inb_range m did W Hlt)|exact He]).
+    split; [exact Heid|]. cbv zeta.
+    pose proof (wf_inb_to _ W did eid Hlt He) as Hto.
+    split; [exact Hto|]. split; [apply wf_edge_from; auto|]. split.
+    - unfold mstates, merged_states. apply in_map_iff. exists did. split; auto.
+    - unfold relax_event. rewrite Hto. reflexivity.
+  Qed.
+
+  (* ================================================================ the log of _finalize and of compile *)
+  Lemma finalize_layers_log m : m_log (finalize_layers inp m) = m_log m.
+  Proof.
+    unfold finalize_layers. destruct (is_pooled flv).
+    - simpl. apply fold_left_proj. intros; reflexivity.
+    - destruct (m_next m); reflexivity.
+  Qed.
+
+  Lemma lel_cutset_log (m : mddT) lel : m_log (lel_cutset m lel) = m_log m.
+  Proof.
+    unfold lel_cutset. rewrite fold_left_proj by (intros; reflexivity).
+    destruct (nth_error _ _); [|reflexivity]. simpl.
+    rewrite fold_left_proj by (intros; reflexivity). reflexivity.
+  Qed.
+
+  Lemma frontier_cutset_log m push : m_log (frontier_cutset inp m push) = m_log m.
+  Proof.
+    unfold frontier_cutset. apply fold_left_proj. intros a id.
+    destruct (fl_is_exact _); [reflexivity|].
+    apply fold_left_proj. intros b eid.
+    destruct (_ && _); [|reflexivity]. destruct push; reflexivity.
+  Qed.
+
+  Lemma finalize_cutset_log m : m_log (finalize_cutset inp m) = m_log m.
+  Proof.
+    unfold finalize_cutset.
+    destruct flv; destruct (m_lel m); destruct (_ || _);
+      rewrite ?lel_cutset_log, ?frontier_cutset_log; reflexivity.
+  Qed.
+
+  Lemma compute_local_bounds_log m : m_log (compute_local_bounds inp m) = m_log m.
+  Proof.
+    unfold compute_local_bounds. destruct (_ && _); [|reflexivity].
+    rewrite fold_left_proj.
+    - apply fold_left_proj; intros; reflexivity.
+    - intros a id. destruct (f_marked _); [|reflexivity].
+      apply fold_left_proj; intros; reflexivity.
+  Qed.
+
+  Lemma logext_maybe_update_cache m id :
+    logext (kind_in [KCacheUpd]) m (maybe_update_cache st_eqb inp m id).
+  Proof.
+    unfold maybe_update_cache. destruct (n_theta _); [|apply logext_refl].
+    destruct (f_above _); [apply logext_cache_update|apply logext_refl].
+  Qed.
+
+  (* the only calls made by _finalize are cache updates *)
+  Lemma logext_compute_thresholds m :
+    logext (kind_in [KCacheUpd]) m (compute_thresholds st_eqb inp m).
+  Proof.
+    unfold compute_thresholds. destruct (_ || _); [|apply logext_refl].
+    assert (Hstep : forall (bk : Z) a id,
+      logext (kind_in [KCacheUpd]) a
+         (let n := gnode a id in
+          if f_deleted (n_flags n) then a
+          else
+            let m0 :=
+              if negb (f_cache (n_flags n)) then
+                let tot_rub := sat_add (n_vtop n) (n_rub n) in
+                let m0 :=
+                  if (tot_rub <=? bk)%Z then upd_node a id (fun n0 => set_theta n0 (Some (sat_sub bk (n_rub n0))))
+                  else if f_cutset (n_flags n) then
+                    let tot_locb := sat_add (n_vtop n) (n_vbot n) in
+                    if (tot_locb <=? bk)%Z then
+                      upd_node a id (fun n0 => set_theta n0 (Some (Z.min (opt_default IMAX (n_theta n0)) (sat_sub bk (n_vbot n0)))))
+                    else upd_node a id (fun n0 => set_theta n0 (Some (n_vtop n0)))
+                  else if fl_is_exact (n_flags n) && match n_theta n with None => true | Some _ => false end then
+                    upd_node a id (fun n0 => set_theta n0 (Some IMAX))
+                  else a in
+                maybe_update_cache st_eqb inp m0 id
+              else a in
+            match n_theta (gnode m0 id) with
+            | Some my_theta =>
+                fold_left (fun m1 eid =>
+                    let e := get_edge m1 eid in
+                    upd_node m1 (e_from e) (fun p =>
+                      set_theta p (Some (Z.min (opt_default IMAX (n_theta p)) (sat_sub my_theta (e_cost e))))))
+                  (n_inb (gnode m0 id)) m0
+            | None => m0
+            end)).
+    { intros bk a id. cbv zeta. destruct (f_deleted _); [apply logext_refl|].
+      match goal with |- logext _ a (match n_theta (get_node inp ?mm id) with _ => _ end) =>
+        set (m2 := mm); assert (W2 : logext (kind_in [KCacheUpd]) a m2) end.
+      { subst m2. destruct (negb _); [|apply logext_refl].
+        eapply logext_trans; [|apply logext_maybe_update_cache].
+        repeat match goal with |- context [if ?c then _ else _] => destruct c end;
+          apply logext_same; reflexivity. }
+      destruct (n_theta (gnode m2 id)); [|exact W2].
+      apply logext_fold; [exact W2|]. intros b eid. apply logext_same; reflexivity. }
+    destruct (m_best_exact m) as [be|].
+    - apply logext_fold.
+      + apply logext_same. apply fold_left_proj. intros a id.
+        match goal with |- context [if ?c then _ else _] => destruct c end; reflexivity.
+      + intros a id. apply Hstep.
+    - apply logext_fold; [apply logext_refl|]. intros a id. apply Hstep.
+  Qed.
+
+  Theorem logext_finalize tb tb2 m :
+    logext (kind_in [KCacheUpd]) m (finalize st_eqb inp tb tb2 m).
+  Proof.
+    unfold finalize. eapply logext_trans; [|apply logext_compute_thresholds].
+    apply logext_same.
+    rewrite compute_local_bounds_log, finalize_cutset_log. simpl. apply finalize_layers_log.
+  Qed.
+
+  (* C12, last clause: the depth handed to next_variable is the depth of the root sub-problem
+     plus the number of previous calls, for the whole compilation *)
+  Theorem compile_nextvar tb tb2 c ds polls m o :
+    compile st_eqb inp tb tb2 c ds polls = (m, o) ->
+    exists n, nextvar_depths (rev (m_log m)) = seq (sp_depth (ci_root inp)) n /\
+              Forall nextvar_faithful (m_log m).
+  Proof.
+    unfold compile. destruct (layer_loop _ _ _ _) as [m1 e] eqn:Hl.
+    apply layer_loop_nextvar in Hl. destruct Hl as [k [n [E [Hd [F _]]]]].
+    rewrite initialize_log, app_nil_r in E. rewrite initialize_depth in Hd. rewrite <- E in Hd, F.
+    assert (G : exists n, nextvar_depths (rev (m_log m1)) = seq (sp_depth (ci_root inp)) n /\
+              Forall nextvar_faithful (m_log m1)) by (exists n; auto).
+    destruct e; intros H; inversion H; subst; auto.
+    destruct (logext_finalize tb tb2 m1) as [kf [Ef Ff]].
+    assert (Nf : ~ In KNextVar [KCacheUpd]) by (simpl; intuition discriminate).
+    exists n. rewrite Ef. split.
+    - rewrite rev_app_distr, nextvar_depths_app, (nextvar_depths_kinds _ _ Nf Ff), app_nil_r. exact Hd.
+    - apply Forall_app. split; [apply (kinds_nextvar_faithful _ _ Nf Ff)|exact F].
+  Qed.
+
+  (* ================================================================ (2') the width bound seen in the log (C13) *)
+  (* number of for_each_in_domain calls *)
+  Fixpoint domain_count (evs : list (event St)) : nat :=
+    match evs with
+    | [] => 0
+    | EvDomain _ _ :: r => S (domain_count r)
+    | _ :: r => domain_count r
+    end.
+
+  (* between two next_variable calls (and after the last one) at most W domains are enumerated;
+     [cnt] is the number of enumerations already seen in the current segment *)
+  Fixpoint width_ok (W cnt : nat) (evs : list (event St)) : Prop :=
+    match evs with
+    | [] => cnt <= W
+    | EvNextVar _ _ _ :: r => cnt <= W /\ width_ok W 0 r
+    | EvDomain _ _ :: r => width_ok W (S cnt) r
+    | _ :: r => width_ok W cnt r
+    end.
+
+  Lemma domain_count_app a b : domain_count (a ++ b) = domain_count a + domain_count b.
+  Proof. induction a as [|x a IH]; simpl; auto. destruct x; simpl; rewrite ?IH; auto. Qed.
+  Lemma domain_count_rev a : domain_count (rev a) = domain_count a.
+  Proof.
+    induction a as [|x a IH]; simpl; auto. rewrite domain_count_app, IH. destruct x; simpl; lia.
+  Qed.
+  Lemma domain_count_kinds ks k : ~ In KDomain ks -> Forall (kind_in ks) k -> domain_count k = 0.
+  Proof.
+    intros Hn F. induction F as [|x k Hx _ IH]; simpl; auto.
+    destruct x; simpl; auto. exfalso; apply Hn; exact Hx.
+  Qed.
+
+  Lemma width_ok_app W k : Forall (fun ev => kind_of ev <> KNextVar) k ->
+    forall c r, width_ok W c (k ++ r) <-> width_ok W (c + domain_count k) r.
+  Proof.
+    induction 1 as [|x k Hx _ IH]; intros c r; simpl.
+    - rewrite Nat.add_0_r. tauto.
+    - destruct x; simpl in *; try (apply IH); try congruence.
+      rewrite IH. replace (S c + domain_count k) with (c + S (domain_count k)) by lia. tauto.
+  Qed.
+
+  Lemma not_nextvar_of_kinds ks k :
+    ~ In KNextVar ks -> Forall (kind_in ks) k -> Forall (fun ev => kind_of ev <> KNextVar) (rev k).
+  Proof.
+    intros Hn F. apply Forall_rev. eapply Forall_impl; [|exact F].
+    intros ev Hin Heq. apply Hn. rewrite <- Heq. exact Hin.
+  Qed.
+
+  Lemma expand_node_domain_count var m id :
+    exists k, m_log (expand_node st_eqb inp var m id) = k ++ m_log m /\
+              Forall (kind_in expand_kinds) k /\ domain_count k <= 1.
+  Proof.
+    unfold expand_node. destruct (_ >? _)%Z.
+    - set (m1 := add_log _ _).
+      assert (L : logext (kind_in [KTransition; KCost]) m1
+                 (fold_left (fun m0 val => branch_on st_eqb inp m0 id {| d_var := var; d_val := val |})
+                    (domain pb var (state_of m id)) m1)).
+      { apply logext_fold; [apply logext_refl|]. intros a x. apply logext_branch_on. }
+      destruct L as [kb [E F]].
+      exists (kb ++ [EvDomain var (state_of m id)]). split; [|split].
+      + rewrite E, <- app_assoc. reflexivity.
+      + apply Forall_app. split.
+        * eapply Forall_impl; [|exact F]. intros ev. apply kind_in_incl.
+          intros x Hx; simpl in *; intuition.
+        * constructor; [left; reflexivity|constructor].
+      + rewrite domain_count_app. rewrite (domain_count_kinds [KTransition; KCost] kb); auto.
+        simpl. intuition discriminate.
+    - exists []. split; [reflexivity|split; [constructor|simpl; lia]].
+  Qed.
+
+  Lemma fold_expand_domain_count var l : forall m,
+    exists k, m_log (fold_left (expand_node st_eqb inp var) l m) = k ++ m_log m /\
+              Forall (kind_in expand_kinds) k /\ domain_count k <= length l.
+  Proof.
+    induction l as [|id l IH]; simpl; intros m.
+    - exists []. split; [reflexivity|split; [constructor|simpl; lia]].
+    - destruct (expand_node_domain_count var m id) as [k1 [E1 [F1 C1]]].
+      destruct (IH (expand_node st_eqb inp var m id)) as [k2 [E2 [F2 C2]]].
+      exists (k2 ++ k1). split; [|split].
+      + rewrite E2, E1, app_assoc. reflexivity.
+      + apply Forall_app; auto.
+      + rewrite domain_count_app. lia.
+  Qed.
+
+  (* the condition under which _squash_if_needed enforces the width *)
+  Definition enforces_width (m : mddT) : Prop :=
+    ci_type inp = Restricted \/
+    (ci_type inp = Relaxed /\ 1 <= ci_width inp /\ 1 < length (m_layers m)).
+
+  Lemma move_pooled_layers_le m var m' ol :
+    move_to_next_layer_pooled st_eqb inp m var = (m', ol) -> length (m_layers m) <= length (m_layers m').
+  Proof.
+    rewrite move_pooled_unfold. cbv zeta.
+    destruct (prefilter _ _) as [m1 l1] eqn:H1.
+    destruct (filter_with_dominance _ _ _) as [m2 l2] eqn:H2.
+    destruct (squash_if_needed _ _ _ _) as [m3 l3] eqn:H3.
+    intros H. apply pair_eq_inv in H. destruct H as [<- _].
+    destruct (stages_layers _ _ _ _ _ _ _ _ H1 H2 H3) as [_ [E _]].
+    pose proof (ext_layers _ _ E) as EL. rewrite pooled_start_layers in EL.
+    match goal with |- context [match ?c with [] => _ | _ => _ end] => destruct c end.
+    - rewrite EL. lia.
+    - rewrite push_layer_layers, app_length, EL. lia.
+  Qed.
+
+  Lemma loop_move_width m var m' l :
+    loop_move m var = (m', Some l) -> enforces_width m ->
+    length l <= ci_width inp /\ enforces_width m'.
+  Proof.
+    unfold loop_move, enforces_width. intros H Hw.
+    assert (Hlay : length (m_layers m) <= length (m_layers m')).
+    { destruct (is_pooled flv).
+      - destruct (m_next m); [discriminate|]. eapply move_pooled_layers_le; eauto.
+      - apply move_clean_layers in H. destruct H as [ids ->]. rewrite app_length. lia. }
+    split.
+    - destruct (is_pooled flv).
+      + destruct (m_next m) as [|x nx] eqn:Hn; [discriminate|].
+        destruct Hw as [Ht|[Ht [H1 H2]]].
+        * eapply move_pooled_width_restricted; eauto.
+        * eapply move_pooled_width_relaxed; eauto.
+      + destruct Hw as [Ht|[Ht [H1 H2]]].
+        * eapply move_clean_width_restricted; eauto.
+        * eapply move_clean_width_relaxed; eauto.
+    - destruct Hw as [Ht|[Ht [H1 H2]]]; [left; auto|right]. repeat split; auto. lia.
+  Qed.
+
+  Theorem layer_loop_width : forall fuel m m' e,
+    layer_loop st_eqb inp fuel m = (m', e) -> enforces_width m ->
+    exists k, m_log m' = k ++ m_log m /\
+              forall c, c <= ci_width inp -> width_ok (ci_width inp) c (rev k).
+  Proof.
+    induction fuel as [|fuel IH]; intros m m' e H Hw.
+    - simpl in H. inversion H; subst. exists []. split; [reflexivity|]. simpl. auto.
+    - rewrite layer_loop_iteration in H. cbv zeta in H.
+      set (sts := map (fun id => state_of m id) (m_next m)) in *.
+      destruct (next_variable pb (m_curr_depth m) sts) as [var|].
+      2:{ inversion H; subst. exists [EvNextVar (m_curr_depth m) sts None].
+          split; [reflexivity|]. simpl. intros c Hc. split; [exact Hc|lia]. }
+      set (m0 := add_log m (EvNextVar (m_curr_depth m) sts (Some var))) in *.
+      set (m1 := with_polls m0 (S (m_polls m0))) in *.
+      destruct (_ && _).
+      { inversion H; subst. exists [EvNextVar (m_curr_depth m) sts (Some var)].
+        split; [reflexivity|]. simpl. intros c Hc. split; [exact Hc|lia]. }
+      destruct (loop_move m1 var) as [m2 ol] eqn:Hmv.
+      pose proof (loop_move_log_depth _ _ _ _ Hmv) as [[k2 [E2 F2]] _].
+      change (m_log m1) with (EvNextVar (m_curr_depth m) sts (Some var) :: m_log m) in E2.
+      assert (N2 : ~ In KNextVar stage_kinds) by (simpl; intuition discriminate).
+      assert (D2 : ~ In KDomain stage_kinds) by (simpl; intuition discriminate).
+      destruct ol as [l|].
+      2:{ inversion H; subst. exists (k2 ++ [EvNextVar (m_curr_depth m) sts (Some var)]).
+          split; [rewrite E2, <- app_assoc; reflexivity|].
+          intros c Hc. rewrite rev_app_distr. simpl. split; [exact Hc|].
+          rewrite <- (app_nil_r (rev k2)).
+          rewrite (width_ok_app _ _ (not_nextvar_of_kinds _ _ N2 F2)).
+          rewrite domain_count_rev, (domain_count_kinds _ _ D2 F2). simpl. lia. }
+      assert (Hw1 : enforces_width m1) by exact Hw.
+      destruct (loop_move_width _ _ _ _ Hmv Hw1) as [Hlen Hw2].
+      destruct (fold_expand_domain_count var l m2) as [k3 [E3 [F3 C3]]].
+      assert (N3 : ~ In KNextVar expand_kinds) by (simpl; intuition discriminate).
+      apply IH in H.
+      2:{ unfold enforces_width in *. simpl m_layers.
+          rewrite (ext_layers _ _ (ext_fold_expand var l m2)). exact Hw2. }
+      destruct H as [k [E Hk]]. simpl m_log in E.
+      exists (k ++ k3 ++ k2 ++ [EvNextVar (m_curr_depth m) sts (Some var)]). split.
+      + rewrite E, E3, E2, <- !app_assoc. reflexivity.
+      + intros c Hc. rewrite !rev_app_distr. simpl rev at 1. rewrite <- !app_assoc. simpl.
+        split; [exact Hc|].
+        rewrite (width_ok_app _ _ (not_nextvar_of_kinds _ _ N2 F2)).
+        rewrite domain_count_rev, (domain_count_kinds _ _ D2 F2).
+        rewrite (width_ok_app _ _ (not_nextvar_of_kinds _ _ N3 F3)).
+        rewrite domain_count_rev. apply Hk. simpl. lia.
+  Qed.
+
+  (* restricted compilations: the bound holds for the whole log, for the three flavours *)
+  Theorem compile_width_restricted tb tb2 c ds polls m o :
+    ci_type inp = Restricted ->
+    compile st_eqb inp tb tb2 c ds polls = (m, o) ->
+    width_ok (ci_width inp) 0 (rev (m_log m)).
+  Proof.
+    intros Ht. unfold compile. destruct (layer_loop _ _ _ _) as [m1 e] eqn:Hl.
+    apply layer_loop_width in Hl; [|left; exact Ht]. destruct Hl as [k [E Hk]].
+    rewrite initialize_log, app_nil_r in E.
+    assert (G : width_ok (ci_width inp) 0 (rev (m_log m1))) by (rewrite E; apply Hk; lia).
+    destruct e; intros H; inversion H; subst; auto.
+    destruct (logext_finalize tb tb2 m1) as [kf [Ef Ff]].
+    rewrite Ef, rev_app_distr.
+    (* the cache updates of _finalize come last and enumerate no domain *)
+    assert (Happ : forall W a b c, Forall (fun ev : event St => kind_of ev <> KNextVar /\ kind_of ev <> KDomain) b ->
+              width_ok W c a -> width_ok W c (a ++ b)).
+    { intros W a b. induction a as [|x a IH]; simpl; intros c0 Fb Ha.
+      - induction Fb as [|y b [Hy1 Hy2] _ IHb]; simpl; auto. destruct y; simpl in *; auto; congruence.
+      - destruct x; simpl in *; auto. destruct Ha; split; auto. }
+    apply Happ; [|exact G]. apply Forall_rev. eapply Forall_impl; [|exact Ff].
+    intros ev [Hk1|[]]. rewrite <- Hk1. split; discriminate.
+  Qed.
+
+  (* ================================================================ (3') the callback protocol as a checker
+     over the chronological log (C12).  The checker remembers the result of the last
+     next_variable call and the last merge call. *)
+  Record pstate := { ps_var : option nat; ps_merge : option (list St * St) }.
+
+  Definition proto_check (st : pstate) (ev : event St) : Prop :=
+    match ev with
+    | EvNextVar d sts ov => ov = next_variable pb d sts
+    | EvDomain x s => ps_var st = Some x
+    | EvTransition s d s' =>
+        ps_var st = Some (d_var d) /\ s' = transition pb s d /\ In (d_val d) (domain pb (d_var d) s)
+    | EvCost s s' d c =>
+        ps_var st = Some (d_var d) /\ s' = transition pb s d /\ c = transition_cost pb s s' d /\
+        In (d_val d) (domain pb (d_var d) s)
+    | EvMerge ms mg => mg = merge rlx ms /\ 2 <= length ms
+    | EvRelax src dst mg d c rc =>
+        rc = relax rlx src dst mg d c /\ exists ms, ps_merge st = Some (ms, mg) /\ In dst ms
+    | _ => True
+    end.
+
+  Definition proto_step (st : pstate) (ev : event St) : pstate :=
+    match ev with
+    | EvNextVar _ _ ov => {| ps_var := ov; ps_merge := None |}
+    | EvMerge ms mg => {| ps_var := ps_var st; ps_merge := Some (ms, mg) |}
+    | _ => st
+    end.
+
+  Fixpoint proto_ok (st : pstate) (evs : list (event St)) : Prop :=
+    match evs with
+    | [] => True
+    | ev :: r => proto_check st ev /\ proto_ok (proto_step st ev) r
+    end.
+
+  Definition proto_run (st : pstate) (evs : list (event St)) : pstate := fold_left proto_step evs st.
+
+  Lemma proto_ok_app st a b : proto_ok st (a ++ b) <-> proto_ok st a /\ proto_ok (proto_run st a) b.
+  Proof.
+    revert st; induction a as [|x a IH]; intros st; simpl.
+    - tauto.
+    - rewrite IH. unfold proto_run. simpl. tauto.
+  Qed.
+  Lemma proto_run_app st a b : proto_run st (a ++ b) = proto_run (proto_run st a) b.
+  Proof. unfold proto_run. apply fold_left_app. Qed.
+
+  (* cache and dominance traffic is transparent for the protocol *)
+  Definition neutral_kinds : list evkind := [KCacheGet; KCacheUpd; KDomQuery].
+  Lemma proto_neutral k : Forall (kind_in neutral_kinds) k ->
+    forall st, proto_ok st k /\ proto_run st k = st.
+  Proof.
+    induction 1 as [|x k Hx _ IH]; intros st; simpl; [auto|].
+    destruct x; unfold kind_in in Hx; simpl in Hx;
+      try (exfalso; intuition discriminate); simpl; destruct (IH st); auto.
+  Qed.
+
+  (* events of the expansion of a node for variable [var] *)
+  Definition expand_event_ok (var : nat) (ev : event St) : Prop :=
+    match ev with
+    | EvDomain x _ => x = var
+    | EvTransition s d s' => d_var d = var /\ s' = transition pb s d /\ In (d_val d) (domain pb var s)
+    | EvCost s s' d c =>
+        d_var d = var /\ s' = transition pb s d /\ c = transition_cost pb s s' d /\ In (d_val d) (domain pb var s)
+    | _ => False
+    end.
+
+  Lemma proto_expand var k : Forall (expand_event_ok var) k ->
+    forall st, ps_var st = Some var -> proto_ok st k /\ proto_run st k = st.
+  Proof.
+    induction 1 as [|x k Hx _ IH]; intros st Hst; simpl; [auto|].
+    destruct (IH st Hst) as [A B].
+    destruct x; simpl in Hx; try contradiction; simpl.
+    - subst. auto.
+    - destruct Hx as [<- [-> Hin]]. auto.
+    - destruct Hx as [<- [-> [-> Hin]]]. repeat split; auto.
+  Qed.
+
+  Lemma logext_expand_events var m id :
+    id < length (m_nodes m) -> logext (expand_event_ok var) m (expand_node st_eqb inp var m id).
+  Proof.
+    intros Hid. unfold logext. rewrite (expand_node_log var m id Hid).
+    destruct (expands m id).
+    - eexists. split; [reflexivity|]. apply Forall_rev. apply Forall_forall. intros ev Hev.
+      apply expand_trace_protocol in Hev. destruct Hev as [->|[val [Hv Hev]]]; [reflexivity|].
+      cbv zeta in Hev. destruct Hev as [->| ->]; simpl; auto.
+    - exists []. split; [reflexivity|constructor].
+  Qed.
+
+  Lemma logext_fold_expand_events var l : forall m,
+    wf m -> ids_ok (length (m_nodes m)) l ->
+    logext (expand_event_ok var) m (fold_left (expand_node st_eqb inp var) l m).
+  Proof.
+    induction l as [|id l IH]; simpl; intros m W Hl; [apply logext_refl|].
+    inversion Hl as [|? ? Hid Hl']; subst.
+    apply (logext_trans _ _ (expand_node st_eqb inp var m id)); [apply logext_expand_events; exact Hid|].
+    apply IH; [apply wf_expand_node; auto|].
+    eapply ids_ok_mono; [|eassumption]. apply (ext_nodes _ _ (ext_expand_node var m id)).
+  Qed.
+
+  (* the calls made by _squash_if_needed, in call order: nothing, or one merge of at least two
+     states followed by relax calls whose dst is one of the merged states *)
+  Definition squash_chron (evs : list (event St)) : Prop :=
+    evs = [] \/
+    exists ms rel, evs = EvMerge ms (merge rlx ms) :: rel /\ 2 <= length ms /\
+      Forall (fun ev => exists src dst d c,
+                ev = EvRelax src dst (merge rlx ms) d c (relax rlx src dst (merge rlx ms) d c) /\ In dst ms) rel.
+
+  Lemma proto_squash evs : squash_chron evs ->
+    forall st, proto_ok st evs /\ ps_var (proto_run st evs) = ps_var st.
+  Proof.
+    intros [->|[ms [rel [-> [H2 F]]]]] st; simpl; [auto|].
+    set (st1 := {| ps_var := ps_var st; ps_merge := Some (ms, merge rlx ms) |}).
+    assert (G : proto_ok st1 rel /\ proto_run st1 rel = st1).
+    { induction F as [|x rel [src [dst [d [c [-> Hin]]]]] _ IH]; simpl; [auto|].
+      destruct IH as [A B]. split; [|exact B]. split; [|exact A].
+      split; [reflexivity|]. exists ms. split; [reflexivity|exact Hin]. }
+    destruct G as [A B]. split; [auto|]. unfold proto_run in *. simpl. fold st1. rewrite B. reflexivity.
+  Qed.
+
+  Lemma squash_chron_of m l m' l' :
+    wf m -> ids_ok (length (m_nodes m)) l -> NoDup l ->
+    squash_if_needed st_eqb inp m l = (m', l') ->
+    exists ks, m_log m' = ks ++ m_log m /\ squash_chron (rev ks).
+  Proof.
+    intros W Hl Hnd H.
+    assert (Hnone : m_log m' = m_log m -> exists ks, m_log m' = ks ++ m_log m /\ squash_chron (rev ks)).
+    { intros E. exists []. split; [exact E|left; reflexivity]. }
+    unfold squash_if_needed in H. destruct (ci_type inp) eqn:Ht.
+    - inversion H; subst. auto.
+    - destruct (ci_width inp <? length l) eqn:Hlt; simpl in H; [|inversion H; subst; auto].
+      destruct (1 <? length (m_layers m)) eqn:Hlay; [|inversion H; subst; auto].
+      destruct (ci_width inp) as [|w1] eqn:Hw.
+      + unfold relax_layer in H. rewrite Hw in H. inversion H; subst.
+        apply Hnone. simpl. apply note_squash_log.
+      + assert (Hw1 : 1 <= ci_width inp) by lia. rewrite <- Hw in *.
+        destruct (relax_layer_protocol m l m' l' Hw1 W Hl Hnd H) as [evs [E P]].
+        exists (evs ++ [EvMerge (merged_states m l) (merge rlx (merged_states m l))]).
+        split; [rewrite E, <- app_assoc; reflexivity|].
+        right. exists (merged_states m l), (rev evs). rewrite rev_app_distr. split; [reflexivity|].
+        split.
+        * apply Nat.ltb_lt in Hlt. apply Nat.ltb_lt in Hlay.
+          apply (squash_relax_merges_two m l Ht Hw1 Hlt Hlay).
+        * apply Forall_rev. apply Forall_forall. intros ev Hev.
+          destruct (P ev Hev) as [did [eid [_ [_ [_ Hrest]]]]]. cbv zeta in Hrest.
+          destruct Hrest as [Hto [_ [Hin ->]]].
+          do 4 eexists. split; [reflexivity|]. rewrite Hto. exact Hin.
+    - destruct (_ <? _); [|inversion H; subst; auto].
+      apply Hnone. eapply restrict_layer_log; eauto.
+  Qed.
+
+  Lemma stages_protocol m curr m1 l1 m2 l2 m3 l3 :
+    prefilter m curr = (m1, l1) -> filter_with_dominance inp m1 l1 = (m2, l2) ->
+    squash_if_needed st_eqb inp m2 l2 = (m3, l3) ->
+    wf m -> ids_ok (length (m_nodes m)) curr -> NoDup curr ->
+    exists kf ks, m_log m3 = ks ++ kf ++ m_log m /\
+      Forall (kind_in neutral_kinds) kf /\ squash_chron (rev ks).
+  Proof.
+    intros H1 H2 H3 W Hc Hnd.
+    pose proof (ext_prefilter _ _ _ _ H1) as E1.
+    pose proof (ext_filter_with_dominance _ _ _ _ H2) as E2.
+    destruct (wf_prefilter _ _ _ _ H1 W) as [W1 S1].
+    destruct (wf_filter_with_dominance _ _ _ _ H2 W1) as [W2 S2].
+    assert (S12 : sub l2 curr) by (eapply sub_trans; eauto).
+    assert (Hn : length (m_nodes m) <= length (m_nodes m2)).
+    { pose proof (ext_nodes _ _ E1). pose proof (ext_nodes _ _ E2). lia. }
+    destruct (squash_chron_of m2 l2 m3 l3 W2) as [ks [E3 C3]]; auto.
+    { eapply ids_ok_mono; [exact Hn|]. eapply ids_ok_incl; [apply S12|exact Hc]. }
+    { apply S12; exact Hnd. }
+    assert (L1 : logext (kind_in [KCacheGet]) m m1).
+    { unfold prefilter in H1. destruct (_ <? _); [eapply logext_filter_with_cache; eauto|].
+      inversion H1; subst; apply logext_refl. }
+    destruct L1 as [kc [Ec Fc]].
+    destruct (logext_filter_with_dominance _ _ _ _ H2) as [kd [Ed Fd]].
+    exists (kd ++ kc), ks. split; [rewrite E3, Ed, Ec, <- app_assoc; reflexivity|].
+    split; [|exact C3]. apply Forall_app. split.
+    - eapply Forall_impl; [|exact Fd]. intros ev. apply kind_in_incl.
+      unfold neutral_kinds. intros x Hx; simpl in *; intuition.
+    - eapply Forall_impl; [|exact Fc]. intros ev. apply kind_in_incl.
+      unfold neutral_kinds. intros x Hx; simpl in *; intuition.
+  Qed.
+
+  Lemma loop_move_protocol m var m' ol :
+    loop_move m var = (m', ol) -> wf m ->
+    exists kf ks, m_log m' = ks ++ kf ++ m_log m /\
+      Forall (kind_in neutral_kinds) kf /\ squash_chron (rev ks).
+  Proof.
+    intros H W.
+    assert (Hnone : m_log m' = m_log m -> exists kf ks, m_log m' = ks ++ kf ++ m_log m /\
+      Forall (kind_in neutral_kinds) kf /\ squash_chron (rev ks)).
+    { intros E. exists [], []. split; [exact E|split; [constructor|left; reflexivity]]. }
+    unfold loop_move in H. destruct (is_pooled flv).
+    - destruct (m_next m) as [|x nx] eqn:Hn; [inversion H; subst; auto|].
+      rewrite move_pooled_unfold in H. cbv zeta in H.
+      destruct (pooled_start_wf m var W) as [W0 L0].
+      destruct (prefilter _ _) as [m1 l1] eqn:H1.
+      destruct (filter_with_dominance _ _ _) as [m2 l2] eqn:H2.
+      destruct (squash_if_needed _ _ _ _) as [m3 l3] eqn:H3.
+      apply pair_eq_inv in H. destruct H as [<- _].
+      destruct (stages_protocol _ _ _ _ _ _ _ _ H1 H2 H3 W0) as [kf [ks [E [F C]]]].
+      { rewrite L0. unfold pooled_curr. eapply ids_ok_incl; [apply sub_filter|apply (wf_next _ W)]. }
+      { unfold pooled_curr. apply NoDup_filter. apply (wf_next_nodup _ W). }
+      rewrite pooled_start_log in E.
+      exists kf, ks. split; [|auto].
+      match goal with |- context [match ?c with [] => _ | _ => _ end] => destruct c end; exact E.
+    - rewrite move_clean_unfold in H.
+      assert (W0 : wf (with_next m [])) by (apply wf_with_next; [exact W|constructor|constructor]).
+      destruct (m_next m) as [|x nx] eqn:Hn; [inversion H; subst; auto|].
+      rewrite <- Hn in H.
+      destruct (prefilter _ _) as [m1 l1] eqn:H1.
+      destruct (filter_with_dominance _ _ _) as [m2 l2] eqn:H2.
+      destruct (squash_if_needed _ _ _ _) as [m3 l3] eqn:H3.
+      apply pair_eq_inv in H. destruct H as [<- _].
+      destruct (stages_protocol _ _ _ _ _ _ _ _ H1 H2 H3 W0) as [kf [ks [E [F C]]]].
+      { simpl. apply (wf_next _ W). }
+      { apply (wf_next_nodup _ W). }
+      exists kf, ks. auto.
+  Qed.
+
+  Theorem layer_loop_protocol : forall fuel m m' e,
+    layer_loop st_eqb inp fuel m = (m', e) -> wf m ->
+    exists k, m_log m' = k ++ m_log m /\ forall st, proto_ok st (rev k).
+  Proof.
+    induction fuel as [|fuel IH]; intros m m' e H W.
+    - simpl in H. inversion H; subst. exists []. split; [reflexivity|]. simpl. auto.
+    - rewrite layer_loop_iteration in H. cbv zeta in H.
+      set (sts := map (fun id => state_of m id) (m_next m)) in *.
+      destruct (next_variable pb (m_curr_depth m) sts) as [var|] eqn:Hov.
+      2:{ inversion H; subst. exists [EvNextVar (m_curr_depth m) sts None].
+          split; [reflexivity|]. simpl. auto. }
+      set (m0 := add_log m (EvNextVar (m_curr_depth m) sts (Some var))) in *.
+      set (m1 := with_polls m0 (S (m_polls m0))) in *.
+      assert (W1 : wf m1) by (apply wf_with_polls, wf_add_log, W).
+      destruct (_ && _).
+      { inversion H; subst. exists [EvNextVar (m_curr_depth m) sts (Some var)].
+        split; [reflexivity|]. simpl. auto. }
+      destruct (loop_move m1 var) as [m2 ol] eqn:Hmv.
+      destruct (wf_loop_move _ _ _ _ Hmv W1) as [W2 Hl].
+      destruct (loop_move_protocol _ _ _ _ Hmv W1) as [kf [ks [E2 [Ff Cs]]]].
+      change (m_log m1) with (EvNextVar (m_curr_depth m) sts (Some var) :: m_log m) in E2.
+      set (st1 := {| ps_var := Some var; ps_merge := None |}).
+      assert (Pmove : proto_ok st1 (rev kf ++ rev ks) /\ ps_var (proto_run st1 (rev kf ++ rev ks)) = Some var).
+      { destruct (proto_neutral (rev kf) (Forall_rev Ff) st1) as [A1 B1].
+        destruct (proto_squash (rev ks) Cs st1) as [A2 B2].
+        rewrite proto_ok_app, proto_run_app, B1. auto. }
+      destruct Pmove as [Pm Vm].
+      destruct ol as [l|].
+      2:{ inversion H; subst. exists (ks ++ kf ++ [EvNextVar (m_curr_depth m) sts (Some var)]).
+          split; [rewrite E2, <- !app_assoc; reflexivity|].
+          intros st. rewrite !rev_app_distr. simpl rev at 1. rewrite <- !app_assoc. simpl.
+          split; [auto|]. exact Pm. }
+      destruct (Hl l eq_refl) as [Il Nl].
+      destruct (logext_fold_expand_events var l m2 W2 Il) as [k3 [E3 F3]].
+      apply IH in H.
+      2:{ apply wf_with_depth. apply wf_fold_expand; auto. }
+      destruct H as [k [E Hk]]. simpl m_log in E.
+      exists (k ++ k3 ++ ks ++ kf ++ [EvNextVar (m_curr_depth m) sts (Some var)]). split.
+      + rewrite E, E3, E2, <- !app_assoc. reflexivity.
+      + intros st. rewrite !rev_app_distr. simpl rev at 1. rewrite <- !app_assoc. simpl.
+        split; [auto|]. fold st1.
+        rewrite (app_assoc (rev kf)). rewrite proto_ok_app. split; [exact Pm|].
+        destruct (proto_expand var (rev k3) (Forall_rev F3) _ Vm) as [A3 B3].
+        rewrite proto_ok_app, B3. split; [exact A3|apply Hk].
+  Qed.
+
+  (* C12 for a whole compilation, whatever its outcome *)
+  Theorem compile_protocol tb tb2 c ds polls m o :
+    compile st_eqb inp tb tb2 c ds polls = (m, o) ->
+    forall st, proto_ok st (rev (m_log m)).
+  Proof.
+    unfold compile. destruct (layer_loop _ _ _ _) as [m1 e] eqn:Hl.
+    apply layer_loop_protocol in Hl; [|apply wf_initialize]. destruct Hl as [k [E Hk]].
+    rewrite initialize_log, app_nil_r in E. rewrite <- E in Hk.
+    destruct e; intros H; inversion H; subst; auto.
+    intros st. destruct (logext_finalize tb tb2 m1) as [kf [Ef Ff]].
+    rewrite Ef, rev_app_distr, proto_ok_app. split; [apply Hk|].
+    apply proto_neutral. apply Forall_rev. eapply Forall_impl; [|exact Ff].
+    intros ev. apply kind_in_incl. unfold neutral_kinds. intros x Hx; simpl in *; intuition.
   Qed.
 
 End MddStruct.
